@@ -1977,6 +1977,8 @@ def value_attr(ex, obj, name):   # noqa: F811
             return obj.n
         if name == 'shape':
             return (obj.n,)
+        if name == 'dtype':
+            return I.DType(getattr(obj, 'dtype', 'float64'))
         raise OutOfSubset('numpy vector attribute %s' % name)
     return _va2(ex, obj, name)
 
@@ -2377,3 +2379,38 @@ EXT['numpy.vstack'] = _np_stack(0)
 EXT['numpy.hstack'] = _np_stack(1)
 EXT['torch.vstack'] = _np_stack(0)
 EXT['torch.hstack'] = _np_stack(1)
+
+
+class NPFinfo(object):
+    """numpy.finfo / torch.finfo of a floating dtype (machine constants as exact rationals of the IEEE values)"""
+    _E = {'float64': (2.220446049250313e-16, 2.2250738585072014e-308, 1.7976931348623157e+308),
+          'float32': (1.1920928955078125e-07, 1.1754943508222875e-38, 3.4028234663852886e+38),
+          'complex128': (2.220446049250313e-16, 2.2250738585072014e-308, 1.7976931348623157e+308),
+          'complex64': (1.1920928955078125e-07, 1.1754943508222875e-38, 3.4028234663852886e+38)}
+
+    def __init__(self, dtype):
+        self.eps, self.tiny, self.max = self._E[dtype]
+        self.min = -self.max
+        self.dtype = dtype
+
+
+@ext('numpy.finfo', 'torch.finfo')
+def _finfo(ex, a, k):
+    d = a[0] if a else k.get('dtype', k.get('type'))
+    if isinstance(d, STensor):
+        d = d.dtype
+    d = str(d)
+    if d not in NPFinfo._E:
+        raise PyRaise('ValueError', 'data type %r not inexact' % d, origin='numpy')
+    return NPFinfo(d)
+
+
+_va_fin = value_attr
+
+
+def value_attr(ex, obj, name):   # noqa: F811
+    if isinstance(obj, NPFinfo):
+        if name in ('eps', 'tiny', 'max', 'min', 'smallest_normal'):
+            return getattr(obj, 'tiny' if name == 'smallest_normal' else name)
+        raise PyRaise('AttributeError', "'finfo' object has no attribute %r" % name)
+    return _va_fin(ex, obj, name)
